@@ -45,5 +45,9 @@ check("C07", "exploration",
       "Monitors over the per-step buffer snapshots of one call: every buffer produced by undo was shown before; a tail of undos reaches the initial content; n effective undos + n redos restore the text; redo after a new edit changes nothing. Exhaustive over all operation sequences of length <= 4 (quick) / <= 5 (thorough) on an 11-operation Emacs alphabet plus random sequences up to 40 operations in Emacs and Vi (with history walks).",
       TCB, "runtime monitoring: trace checkers (membership, inverse laws) over snapshot sequences", "DESIGN.md 5 C07")
 
+check("C08", "exploration",
+      "Per-source before/after diff of 1-3 bound history sources (in-memory, file-backed, a Write-counting harness source) across 1-4 consecutive Readline calls with 7 accept variants, 5 history-size settings and blank/duplicate/padded/Unicode/multi-line lines: exactly one append of the trimmed line for ordinary accepts unless blank or duplicate of that source's newest entry, unchanged otherwise, limit honoured only from N entries on.",
+      TCB, "runtime monitoring: conservation check (before/after diff, Write-call count) on bound history sources", "DESIGN.md 5 C08")
+
 for _p in ["C03","C04","C05","C06","C07","C08","C09","C10","C11","C12","C13","C14","C15","C16","C17","C18","C19","C20"]:
     NOT_YET[_p] = "check under construction in this session (runtime monitor designed in DESIGN.md section 5, not yet registered)"
